@@ -386,20 +386,37 @@ def _form_argument(e, ctx):
 
 
 def _gateaux_perturbation(f, ctx, lvl, fr):
+    """eps-coefficient of coefficient f under the Gateaux frame fr (a depth d-1 jet) or None.
+
+    Frame data: (ws, vs, cd); an entry of ws is a Coefficient (whole) or a tuple
+    ("comp", coefficient, component) for a user-level pairing of one fixed component."""
     ws, vs, cd = ctx.root.gdata[fr[1]]
+    B = ctx.B
     c2 = None
     total = None
     for w_, v_ in zip(ws, vs):
+        comp = None
+        if isinstance(w_, tuple):
+            _, w_, comp = w_
         if w_ == f:
             c2 = ctx.drop(lvl)
             vv = evaluate(v_, c2)
             if vv.fi:
                 raise Unsupported("free indices in a Gateaux direction")
-            total = vv.arr if total is None else total + vv.arr
+            arr = vv.arr
+            if comp is not None:
+                if vv.rank:
+                    raise StructureMismatch("component direction must be scalar")
+                full = B.zeros(arr.shape[: c2.d] + tuple(f.ufl_shape))
+                full[(slice(None),) * c2.d + tuple(comp)] = arr
+                arr = full
+            elif tuple(arr.shape[c2.d :]) != tuple(f.ufl_shape):
+                raise StructureMismatch("direction shape differs from coefficient shape")
+            total = arr if total is None else total + arr
     if total is None and cd:
         for k, df in cd:
             if k == f:
-                if len(vs) != 1:
+                if len(vs) != 1 or isinstance(ws[0], tuple):
                     raise Unsupported("coefficient derivatives with several directions")
                 c2 = ctx.drop(lvl)
                 dv = evaluate(df, c2)
@@ -1190,21 +1207,25 @@ class Result:
 
 
 def S(expr, world, B=None, side=None, gateaux=None, strict=True):
-    """Evaluate expr in world.  `gateaux` = (ws, vs, cd) installs an outer Gateaux frame and
-    returns the eps-coefficient (the directional derivative by definition)."""
+    """Evaluate expr in world.  `gateaux` = (ws, vs, cd) (or a list of such frames, outermost
+    derivative last) installs Gateaux frames and returns the mixed eps-coefficient, i.e. the
+    (iterated) directional derivative by definition."""
     B = B or CB
     B.reset()
     ctx = Ctx(world, B, (), side)
     ctx.strict_struct = strict
     with np.errstate(all="ignore"):
         if gateaux is not None:
-            gid = ("G", "outer")
-            ctx.gdata[gid] = gateaux
-            c2 = ctx.push(("G", gid))
+            frames = gateaux if isinstance(gateaux, list) else [gateaux]
+            c2 = ctx
+            for k, fr in enumerate(frames):
+                gid = ("G", "outer", k)
+                ctx.gdata[gid] = fr
+                c2 = c2.push(("G", gid))
             r = evaluate(expr, c2)
-            arr = eps_part(r.arr, 0, 1)
+            arr = r.arr[(1,) * len(frames)]
         else:
             r = evaluate(expr, ctx)
             arr = r.arr
-    B.check_finite(arr, "result") if arr.dtype != object else B.check_finite(arr, "result")
-    return Result(arr, r.rank, r.fi, set(B.flags), B.maxabs)
+    B.check_finite(arr, "result")
+    return Result(J.fix(arr), r.rank, r.fi, set(B.flags), B.maxabs)
